@@ -610,7 +610,7 @@ def request_alphabet():
     A.append(('put-deploy', 'QNoRoute', 'PUT', '/definitions/deploy', None, None, 'noroute'))
     # rejected by the framework before the handler; known finding class when the answer is not JSON
     A.append(('eval-bad-utf8', 'QEvaluate 11 false', 'POST', '/evaluate/m11/dec', b'{x: "\xff\xfe"}', 'text/plain', 'fault'))
-    A.append(('eval-oversized', 'QRejected', 'POST', '/evaluate/m11/dec', '{x: "' + 'A' * (300 * 1024) + '"}', 'text/plain', 'extractor'))
+    A.append(('eval-oversized', 'QRejected', 'POST', '/evaluate/m11/dec', '{x: "' + 'A' * (300 * 1024) + '"}', 'text/plain', 'rejected'))
     A.append(('add-oversized', 'QRejected', 'POST', '/definitions/add', '{"content":"' + 'A' * (4 * 1024 * 1024 + 4096) + '"}', 'application/json', 'oversized'))
     return A
 
@@ -726,8 +726,8 @@ def run_sequences(ctx, svc, seqs, alphabet):
 def gen_sequences(ctx, alphabet):
     idx = {a[0]: i for i, a in enumerate(alphabet)}
     ops = [i for i, a in enumerate(alphabet) if a[6] == 'op']
-    faults = [i for i, a in enumerate(alphabet) if a[6] in ('fault', 'rejected', 'noroute')]
-    heavy = [i for i, a in enumerate(alphabet) if a[6] in ('extractor', 'oversized')]
+    heavy = [i for i, a in enumerate(alphabet) if a[0].endswith('-oversized')]
+    faults = [i for i, a in enumerate(alphabet) if a[6] in ('fault', 'rejected', 'noroute') and i not in heavy]
     seqs = [[idx[n] for n in ['add0', 'add0', 'replace0', 'deploy', 'eval11', 'replace4', 'eval11', 'deploy', 'eval11', 'tck11']],
             [idx[n] for n in ['add0', 'add1', 'replace3', 'add-bad-base64', 'deploy', 'eval-bad-utf8', 'eval11', 'eval12', 'remove1_12', 'eval11']],
             [idx[n] for n in ['add5', 'add0', 'deploy', 'eval14', 'eval11', 'add-oversized', 'eval11', 'eval-oversized', 'tck11', 'clear', 'eval11']]]
